@@ -26,7 +26,7 @@ RULES_DOC.update({
     "R5": "free routines: join -> free -> handle = NULL; thread_free: unset pool <= 1, ktable_free <= 1, mem_free_thread == 1",
     "R6": "ABTI_thread_terminate: exactly one release-store of TERMINATED; freed iff unnamed; nothing after the store for named units",
 })
-VARIANTS = ["active_wait", "no_ext_thread", "no_linux_futex"]
+VARIANTS = ["active_wait", "no_ext_thread", "no_linux_futex", "tool_interface"]
 T = "src/thread.c"
 YH = "src/include/abti_ythread.h"
 
